@@ -42,9 +42,9 @@ def jobs_for(tier, seed, what):
                    "shard": 20000} for W in (2, 3) for k in range(2)])
         if tier == "quick":
             J.append([{"gen": "exh", "W": 2, "depth": 2, "part": k, "nparts": n, "z3": z3n, "meta": meta,
-                       "spell": False, "sample": 2, "seed": seed, "shard": 20000} for k in range(n)])
+                       "spell": False, "sample": 4, "seed": seed, "shard": 20000} for k in range(n)])
             J.append([{"gen": "exh", "W": 3, "depth": 2, "part": k, "nparts": n, "z3": z3n, "meta": meta,
-                       "spell": False, "sample": 16, "seed": seed, "shard": 20000} for k in range(n)])
+                       "spell": False, "sample": 32, "seed": seed, "shard": 20000} for k in range(n)])
         else:
             J.append([{"gen": "exh", "W": 2, "depth": 2, "part": k, "nparts": n, "z3": z3n, "meta": meta,
                        "spell": True} for k in range(n)])
